@@ -416,3 +416,81 @@ go_types = FunctionContract(
             ("if attributes_match(attrs, kwargs) and", "if attributes_match(attrs, kwargs) or")],
 )
 CONTRACTS.append(go_types)
+
+
+# ------------------------------------------------------------------ read_go_map: which lines of the contact map are contacts
+LineT, TokT = TKey('LineT'), TKey('TokT')
+Contact = TTuple(TInt, TokT, TInt, TokT)
+
+
+def setup_rgm(cx):
+    from pyvc.values import COERCIONS
+    from pyvc.builtins import list_append
+    eng = cx.eng
+    LINES = cx.val('LINES', TSeq(LineT))
+    cx.spec_env['LINES'] = LINES
+    toks = cx.uf('toks', [LineT], TSeq(TokT))              # line.strip().split()
+    num = cx.uf('num', [TokT], TInt)                       # int(token)
+    isnum = cx.uf('isnum', [TokT], TBool)
+    l_ = z3.Const('ln', LineT.sort())
+    cx.assume(z3.ForAll([l_], TSeq(TokT).len(toks(l_)) >= 0))
+    consts = {k: z3.Const('tok!' + k, TokT.sort()) for k in ('R', '1', '0')}
+    cx.assume(z3.Distinct(*consts.values()))
+    COERCIONS[('Str', 'TokT')] = lambda e: consts[e.as_string()] if z3.is_string_value(e) and e.as_string() in consts else \
+        (_ for _ in ()).throw(EngineError('token literal %s' % e))
+    eng.methods[('LineT', 'strip')] = lambda e, l: Obj('stripped', split=Builtin(lambda e2: SV(TSeq(TokT), toks(to_z3(l, LineT))), 'split'))
+
+    def int_(e, x):
+        if isinstance(x, SV) and x.ty == TokT:
+            e.maybe_raise(isnum(x.e), 'ValueError')
+            return SV(TInt, num(x.e))
+        raise EngineError('int(%r)' % (x,))
+    cx.spec_env['int'] = Builtin(int_, 'int')
+    f = Obj('file')
+    f.__dict__['iter'] = LINES
+    f.attrs['__enter__'] = Builtin(lambda e: f, '__enter__')
+    f.attrs['__exit__'] = Builtin(lambda e, *a: None, '__exit__')
+    cx.spec_env['open'] = Builtin(lambda e, path, mode='r', encoding=None: f, 'open')
+    MAPS = cx.heap('GO_MAPS', cx.box('GO_MAPS', TSeq(TSeq(Contact))))
+    go_map = Obj('go_map', append=Builtin(lambda e, c: list_append(e, MAPS, c), 'go_map.append'))
+    system = Obj('System', go_params=Obj('go_params', __getitem__=Builtin(lambda e, k: go_map if k == 'go_map' else
+                                                                         (_ for _ in ()).throw(EngineError('go_params[%r]' % (k,))), 'go_params[]')))
+    return dict(system=system, file_path=Obj('path'))
+
+
+SPEC_RGM = {
+    'T': "lambda i: toks(LINES[i])",
+    # a contact line: 18 columns, the first one R, and either the overlap column says 1 or it says 0 and the rCSU column says 1
+    'is_contact': "lambda i: len(T(i)) == 18 and T(i)[0] == 'R' and (T(i)[11] == '1' or (T(i)[11] == '0' and T(i)[14] == '1'))",
+    'contact_of': "lambda c, i: c[0] == num(T(i)[5]) and c[1] == T(i)[4] and c[2] == num(T(i)[9]) and c[3] == T(i)[8]",
+}
+RGM_INV = [
+    "len(g_src) == len(contacts)",
+    "forall(lambda q: implies(0 <= q and q < len(g_src), 0 <= g_src[q] and g_src[q] < {I} and is_contact(g_src[q]) and contact_of(contacts[q], g_src[q])))",
+    "forall(lambda p, q: implies(0 <= p and p < q and q < len(g_src), g_src[p] < g_src[q]))",
+    "forall(lambda i: implies(0 <= i and i < {I} and is_contact(i), i in g_pos and 0 <= g_pos[i] and g_pos[i] < len(g_src) and g_src[g_pos[i]] == i))",
+]
+read_go_map = FunctionContract(
+    'vermouth/rcsu/contact_map.py', 'read_go_map', 'C18', setup=setup_rgm, spec_defs=SPEC_RGM, spec_env=dict(TokT=TokT),
+    locals=dict(contacts=TSeq(Contact), g_src=TSeq(TInt), g_pos=TMap(TInt, TInt)), ghost_at={'entry': "g_src = []\ng_pos = {}"},
+    allow_exc=('ValueError',),          # a residue number that is not a number
+    requires=["len(old(GO_MAPS)) == 0"],
+    ensures=[
+        # the contact map handed to the system holds, in file order, exactly the contact lines - (residue number, chain, residue
+        # number, chain) of columns 6, 5, 10, 9 -, and there is at least one
+        "len(GO_MAPS) == 1 and len(GO_MAPS[0]) == len(g_src) and len(g_src) > 0",
+        "forall(lambda q: implies(0 <= q and q < len(g_src), 0 <= g_src[q] and g_src[q] < len(LINES) and is_contact(g_src[q]) and "
+        "   contact_of(GO_MAPS[0][q], g_src[q])))",
+        RGM_INV[2], RGM_INV[3].format(I='len(LINES)'),
+    ],
+    # no contact line at all: IOError, nothing handed over
+    raises={'OSError': ["forall(lambda i: implies(0 <= i and i < len(LINES), not is_contact(i)))", "len(GO_MAPS) == 0"]},
+    modifies=['GO_MAPS'],
+    loops={'L1': LoopSpec(inv=[x.format(I='_i') for x in RGM_INV] + ["len(GO_MAPS) == 0"], modifies=['contacts', 'g_src', 'g_pos'],
+                          locals=dict(g_n0=TInt), ghost_pre="g_n0 = len(contacts)",
+                          ghost_end="if len(contacts) > g_n0:\n    g_src.append(_i)\n    g_pos[_i] = g_n0")},
+    canary=[("if tokens[11] == \"1\" or (tokens[11] == \"0\" and tokens[14] == \"1\"):", "if tokens[11] == \"1\" or tokens[14] == \"1\":"),
+            ("contacts.append((int(tokens[5]), tokens[4], int(tokens[9]), tokens[8]))", "contacts.append((int(tokens[5]), tokens[4], int(tokens[5]), tokens[8]))"),
+            ("len(tokens) == 18", "len(tokens) >= 18")],
+)
+CONTRACTS.append(read_go_map)
